@@ -260,7 +260,7 @@ def explore_trees(ctx, stream, cases):
         ctx.dist['depth:%d' % depth_of(c['tree'])] += 1
         for tag in shape_tags(c):
             ctx.dist['shape:' + tag] += 1
-        for kind in ('unused', 'adj', 'vsys'):
+        for kind in ('unused', 'adj', 'vsys', 'byconsp'):
             if has_kind(c['tree'], (kind,)):
                 ctx.dist['has:' + kind] += 1
         ctx.dist['leaf-calls:%s' % ('0' if ncalls == 0 else '1-3' if ncalls < 4 else '4-9' if ncalls < 10 else '10+')] += 1
@@ -476,6 +476,10 @@ class Gen:
         if d <= 1 or r < 0.36:
             kinds = {'int': ['none', 'none', 'int', 'dict', 'ev', 'ev'], 'dict': ['none', 'none', 'ev', 'int', 'dict', 'dict'],
                      'none': ['int', 'dict', 'vps']}[want]
+            if self.rng.random() < 0.12:       # with a preselector on the national totals (seated or seatless)
+                static = {'int': ['none', 'int', 'dict'], 'dict': ['none', 'int', 'dict'], 'none': ['int', 'dict']}[want]
+                pre = self.pick([self.leaf('plurality'), self.elim(0), self.elim(1), ['tiebr', self.leaf('plurality'), self.leaf('plurality')]])
+                return ['byconsp', inner(), self.aspec(static, consts), pre]
             return ['bycons', inner(), self.aspec(kinds, consts)]
         if r < 0.48:
             return ['cond', self.elim(d - 1), self.cdist(d - 1, want, consts, lists_ok, flat), 2]
@@ -766,8 +770,17 @@ def gen_boundary(rng, count):
             yield dict(unit='tree', tree=tree, votes=votes, args={'n_seats': rng.randint(1, 3)}, style=rng.choice(['pos', 'kw']))
         elif k == 15:  # seatless apportioner / seatless overall evaluator: seat count omitted, None, a dictionary, or (ill-typed) a number
             vps = lambda lo, hi: g.leaf('vps', [rng.randint(lo, hi)])   # noqa
-            shape = rng.choice(['bycons', 'bycons', 'preapp', 'byparty', 'byparty', 'cond-bycons', 'multi-byparty'])
+            shape = rng.choice(['bycons', 'bycons', 'preapp', 'byparty', 'byparty', 'cond-bycons', 'multi-byparty', 'presel', 'presel'])
             votes = g.nested_votes(consts, parties)
+            if shape == 'presel':    # a preselector that takes a seat count (Plurality: default 1) / does not; count omitted, None, int, dict
+                pre = rng.choice([g.leaf('plurality'), g.leaf('plurality'), g.elim(0)])
+                tree = ['byconsp', rng.choice([g.dist_leaf(), g.leaf('plurality')]), rng.choice([rng.randint(1, 3), {c: rng.randint(0, 3) for c in consts}]), pre]
+                if rng.random() < 0.3:
+                    tree = rng.choice([['cond', g.elim(0), tree, 2], ['pre', g.id(), 'ident', tree], ['multi', [tree], 2]])
+                what = 'int' if tree[0] == 'multi' else rng.choice(['omit', 'omit', 'none', 'int', 'dict'])
+                args = {} if what == 'omit' else {'n_seats': None if what == 'none' else ({c: rng.randint(0, 4) for c in consts} if what == 'dict' else rng.randint(1, 3))}
+                yield dict(unit='tree', tree=tree, votes=votes, args=args, style=rng.choice(['pos', 'kw']))
+                continue
             if shape in ('bycons', 'cond-bycons'):
                 tree = ['bycons', rng.choice([g.dist_leaf(), g.leaf('plurality')]), ['ev', vps(10, 150)]]
                 if shape == 'cond-bycons':
